@@ -23,6 +23,7 @@ import (
 	"io/ioutil"
 	"os"
 	"sort"
+	"strconv"
 	"sync"
 	"time"
 
@@ -813,6 +814,65 @@ func (r *vC01Rig) observeOffline(n *vC01Node) string {
 	}
 	sort.Slice(ev.Pins, func(i, j int) bool { return ev.Pins[i].Cid < ev.Pins[j].Cid })
 	r.trace = append(r.trace, ev)
+	return "ok"
+}
+
+// reinstall sends the leader's newest snapshot to follower f once more, as an InstallSnapshot RPC with the leader's
+// identity and term (the request sendLatestSnapshot of hashicorp/raft builds), through a transport of its own. A leader of
+// hashicorp/raft v1.1.1 was observed to do this by itself to a reconnected follower that had already applied entries past the
+// snapshot (three times in a row; schedule-dependent, about once in several thousand scripts): the follower does not
+// compare the snapshot with what it holds, FSM.Restore runs, the replica goes back to the prefix the snapshot is labelled
+// with, and it applies the entries after it again when the next entry commits. Everything on the follower's side is the real code.
+//
+// hashicorp/raft itself does not survive every backward install: the follower sets lastApplied to the snapshot's index and, with
+// the next commit, reads the entries after it from its log store (processLogs) and PANICS ("log not found") when its own
+// compaction has already removed one of them - after a snapshot of its own past the installed one. That would kill the test
+// binary, so the snapshot is re-sent only when every entry after it is still in the follower's log store, and will be after the
+// compaction that follows the follower's pending snapshot (fHeld).
+func (r *vC01Rig) reinstall(l, f *vC01Node, fHeld bool) string {
+	if l == nil || f == nil || l == f || f.trans == nil || f.down || f.isolated || f.crashed || l.raft == nil {
+		return "skipped"
+	}
+	meta, data := l.snaps.newest()
+	if meta == nil {
+		return "nosnapshot"
+	}
+	first, _ := f.logs.FirstIndex()
+	last, _ := f.logs.LastIndex()
+	if last > meta.Index && first > meta.Index+1 {
+		return "unsafe_log_compacted"
+	}
+	if fHeld && last > r.trailing && last-r.trailing > meta.Index {
+		return "unsafe_pending_compaction"
+	}
+	term, err := strconv.ParseUint(l.raft.Stats()["term"], 10, 64)
+	if err != nil {
+		return "skipped"
+	}
+	// hashicorp/raft's encodeConfiguration is msgpack of the Configuration struct (go-msgpack, a fork of the ugorji codec the
+	// repository already uses; importing go-msgpack directly would make the go command add it to the repository's go.mod)
+	cbytes := vC01Encode(meta.Configuration)
+	_, ht := hraft.NewInmemTransportWithTimeout(hraft.ServerAddress("vc01-resend"), 2*time.Second)
+	ht.Connect(f.addr, f.trans)
+	defer ht.DisconnectAll()
+	req := hraft.InstallSnapshotRequest{
+		RPCHeader:          hraft.RPCHeader{ProtocolVersion: r.raftConfig(l).ProtocolVersion},
+		SnapshotVersion:    meta.Version,
+		Term:               term,
+		Leader:             []byte(l.addr),
+		LastLogIndex:       meta.Index,
+		LastLogTerm:        meta.Term,
+		Size:               int64(len(data)),
+		Configuration:      cbytes,
+		ConfigurationIndex: meta.ConfigurationIndex,
+	}
+	var resp hraft.InstallSnapshotResponse
+	if err := ht.InstallSnapshot(hraft.ServerID(peer.Encode(f.id)), f.addr, &req, &resp, bytes.NewReader(data)); err != nil {
+		return "rpcerror"
+	}
+	if !resp.Success {
+		return "rejected"
+	}
 	return "ok"
 }
 
